@@ -56,6 +56,13 @@ class EntV:
     writes: dict = field(default_factory=dict)
 
 
+def entity_key(ent):
+    """Identity of a placed entity for its circuit output: its declared name and, when known, its tile (one name may be placed
+    several times by a loop or by calls)."""
+    x, y = getattr(ent.x, "v", None), getattr(ent.y, "v", None)
+    return f"{ent.name}@{x},{y}" if isinstance(x, int) and isinstance(y, int) else ent.name
+
+
 @dataclass
 class MemV:
     name: str
@@ -67,7 +74,7 @@ class Sem:
         """inputs: {variable name: {signal: value}} overriding top-level constant declarations."""
         self.B = B
         self.inputs = inputs or {}
-        self.entity_outputs = entity_outputs or {}
+        self.entity_outputs = entity_outputs if entity_outputs is not None else {}
         self.funcs = {}
         self.globals = {}
         self.decl_order = []
@@ -535,7 +542,8 @@ class Sem:
         if not isinstance(ent, EntV):
             raise Rejected("undefined entity")
         self.consumed.add(e.entity_name)
-        return BunV(dict(self.entity_outputs.get(e.entity_name, {})), True)
+        # the contents are the ENTITY's, whatever name it is read through (an Entity parameter, a returned entity)
+        return BunV(dict(self.entity_outputs.get(entity_key(ent), {})), True)
 
     def x_PropertyAccessExpr(self, e, env):
         if e.property_name == "output":
